@@ -195,7 +195,7 @@ def run(chk):
         'float repr outside positional notation',
     ]
     big = tier != 'quick'
-    N = 700 if not big else 12000
+    N = 700 if not big else 8000
 
     # ------------------------------------------------------------------ cases
     cases = []
@@ -359,7 +359,7 @@ def run(chk):
     lab_cases = []
     single = [[x] for x in E.LABELS]
     pairs = [[x, y] for x in E.LABELS for y in E.LABELS if E.LABEL_ELEMENT[x] != E.LABEL_ELEMENT[y]]
-    nl = 600 if not big else 10000
+    nl = 600 if not big else 8000
     for i in range(nl):
         a, rules = E.gen_rule_annotation(rng, labels_p=0.0, max_len=20)
         if rng.random() < 0.5:
